@@ -60,7 +60,7 @@ Section NewPending.
   Variables (st : state) (log stk : list nat) (c : nat) (rest : list nat) (home : nat -> nat) (x : Z).
   Hypothesis Hstk : stk = c :: rest.
   Hypothesis I : InvS st log stk home no_extra.
-  Hypothesis Hnone : find (fun v => vname (vget st v) =? x) (sundeclared (sc_of st c)) = None.
+  Hypothesis Hnone : find (und_pred st home x) (sundeclared (sc_of st c)) = None.
 
   Let id := nvars st.
   Let sc := sc_of st c.
@@ -104,6 +104,23 @@ Section NewPending.
 
   Lemma np_old_or_new w : (w < nvars st2)%nat -> (w < nvars st)%nat \/ w = id.
   Proof. rewrite np_nvars. unfold id. lia. Qed.
+
+  Lemma np_args q : und_args (sc_of st2 q) = und_args (sc_of st q).
+  Proof.
+    rewrite np_sc. destruct (Nat.eqb_spec q c) as [->|]; [|reflexivity].
+    unfold und_args at 1. cbn [narguses sundeclared set_undeclared]. apply und_args_app.
+    apply (I_marks _ _ _ _ _ I c). rewrite Hstk. left. reflexivity.
+  Qed.
+
+  Lemma np_argp_old w : (w < nvars st)%nat -> argp st2 home' w = argp st home w.
+  Proof. intros H. apply argp_ext; [apply np_home_old; exact H|apply np_args]. Qed.
+
+  Lemma np_argp_new : argp st2 home' id = false.
+  Proof.
+    apply (notin_und_args_argp st2 home' c id); [unfold home'; rewrite Nat.eqb_refl; reflexivity|].
+    rewrite np_args. intros Hin. unfold und_args in Hin. apply firstn_In' in Hin.
+    pose proof (I_valid _ _ _ _ _ I c id np_c (or_intror Hin)) as H. unfold id in H. lia.
+  Qed.
 
   Lemma InvS_new_pending : InvS st2 (id :: log) stk home' no_extra.
   Proof.
@@ -154,14 +171,16 @@ Section NewPending.
       + intros H1 H2. apply in_app_last in H1. apply in_app_last in H2.
         destruct H1 as [H1| ->], H2 as [H2| ->].
         * pose proof (Hvalu c v1 Hsn H1) as O1. pose proof (Hvalu c v2 Hsn H2) as O2.
-          unfold vd, vn. rewrite !np_vget_old by assumption. apply (Ipuniq c); assumption.
+          unfold vd, vn. rewrite !np_vget_old, !np_argp_old by assumption. apply (Ipuniq c); assumption.
         * pose proof (Hvalu c v1 Hsn H1) as O1. unfold vn. rewrite np_vget_old by exact O1. rewrite np_vget_new. cbn.
-          intros _ _ E. exfalso. apply (find_none_name st _ x Hnone v1 H1). exact E.
+          rewrite (np_argp_old v1), np_argp_new by exact O1.
+          intros _ _ E Ea. exfalso. destruct (find_none_und st home _ x Hnone v1 H1 E) as [_ Ht]. congruence.
         * pose proof (Hvalu c v2 Hsn H2) as O2. unfold vn. rewrite (np_vget_old v2) by exact O2. rewrite np_vget_new. cbn.
-          intros _ _ E. exfalso. apply (find_none_name st _ x Hnone v2 H2). symmetry. exact E.
+          rewrite (np_argp_old v2), np_argp_new by exact O2.
+          intros _ _ E Ea. exfalso. destruct (find_none_und st home _ x Hnone v2 H2 (eq_sym E)) as [_ Ht]. congruence.
         * reflexivity.
       + intros H1 H2. pose proof (Hvalu s v1 Hsn H1) as O1. pose proof (Hvalu s v2 Hsn H2) as O2.
-        unfold vd, vn. rewrite !np_vget_old by assumption. apply (Ipuniq s); assumption.
+        unfold vd, vn. rewrite !np_vget_old, !np_argp_old by assumption. apply (Ipuniq s); assumption.
     - intros r Hr. destruct (np_old_or_new r Hr) as [Ho| ->].
       + unfold vd. rewrite np_root_old, np_vget_old, np_home_old by exact Ho. intros R D.
         destruct (Ipcomp r Ho R D) as [[H1 H2]|[]]. left. split; [exact H1|].
@@ -189,13 +208,13 @@ Section NewPending.
     intros Hw. unfold lab_of. rewrite np_root_of by exact Hw.
     assert (Hr : (root_of st w < nvars st)%nat).
     { destruct (root_of_spec st home w (I_links _ _ _ _ _ I) (I_homes _ _ _ _ _ I) Hw) as (n & _ & _ & H & _). exact H. }
-    unfold lab_root. rewrite np_vget_old, np_home_old by exact Hr. reflexivity.
+    apply lab_root_ext; [rewrite np_vget_old by exact Hr; reflexivity|rewrite np_vget_old by exact Hr; reflexivity|apply np_home_old; exact Hr|apply np_args].
   Qed.
 
   Lemma np_lab_new : lab_of st2 home' id = LPend c x.
   Proof.
     rewrite lab_of_root by (unfold is_root; rewrite np_vget_new; reflexivity).
-    unfold lab_root. rewrite np_vget_new. cbn. unfold home'. rewrite Nat.eqb_refl. reflexivity.
+    unfold lab_root. rewrite np_vget_new, np_argp_new. cbn. unfold home'. rewrite Nat.eqb_refl. reflexivity.
   Qed.
 
   Lemma np_frame_other s : In s stk -> s <> c -> frame_of st2 home' s = frame_of st home s.
@@ -206,21 +225,21 @@ Section NewPending.
       apply (I_valid _ _ _ _ _ I s v Hsn). left. exact Hv.
     - apply map_ext_in. intros v Hv.
       assert (Ho : (v < nvars st)%nat) by (apply (I_valid _ _ _ _ _ I s v Hsn); right; exact Hv).
-      unfold uent_of. rewrite np_vget_old, np_home_old by exact Ho. reflexivity.
+      apply uent_of_ext; [rewrite np_vget_old by exact Ho; reflexivity|rewrite np_vget_old by exact Ho; reflexivity|apply np_home_old; exact Ho|apply np_args].
   Qed.
 
   Lemma np_frame_c :
     frame_of st2 home' c = set_fund (frame_of st home c) (fund (frame_of st home c) ++ [UPend x]).
   Proof.
-    pose proof np_c as Hc. unfold frame_of, set_fund. cbn [fid fisfunc fdecl fund fnarg].
-    rewrite np_sc, Nat.eqb_refl. cbn [sfunc sdeclared sundeclared narguses set_undeclared]. fold sc. f_equal.
+    pose proof np_c as Hc. unfold frame_of, set_fund. cbn [fid fisfunc fdecl fund fnarg fnfor].
+    rewrite np_sc, Nat.eqb_refl. cbn [sfunc sdeclared sundeclared narguses nfordecls set_undeclared]. fold sc. f_equal.
     - apply map_ext_in. intros v Hv. unfold nk. rewrite np_vget_old; [reflexivity|].
       apply (I_valid _ _ _ _ _ I c v Hc). left. exact Hv.
     - rewrite map_app. f_equal.
       + apply map_ext_in. intros v Hv.
         assert (Ho : (v < nvars st)%nat) by (apply (I_valid _ _ _ _ _ I c v Hc); right; exact Hv).
-        unfold uent_of. rewrite np_vget_old, np_home_old by exact Ho. reflexivity.
-      + cbn. unfold uent_of. rewrite np_vget_new. reflexivity.
+        apply uent_of_ext; [rewrite np_vget_old by exact Ho; reflexivity|rewrite np_vget_old by exact Ho; reflexivity|apply np_home_old; exact Ho|apply np_args].
+      + cbn. unfold uent_of. rewrite np_vget_new, np_argp_new. reflexivity.
   Qed.
 
   Lemma new_pending_all :
@@ -275,12 +294,14 @@ Proof.
       replace (vdecl (vget st v) =? 0) with false by (symmetry; apply Z.eqb_neq; exact Hd).
       rewrite Hh, Hname. reflexivity.
   - cbn [option_map].
-    rewrite (find_undeclared_uses st (sc_of st c) x).
+    rewrite (find_undeclared_uses st home c x).
     2:{ intros v Hv. apply (I_uses _ _ U). apply (I_valid _ _ _ _ _ I c v Hc). right. exact Hv. }
+    2:{ apply (I_und_nodup _ _ _ _ _ I c Hcs). }
+    2:{ intros v Hv Hd. apply (I_und _ _ _ _ _ I c v Hcs Hv). exact Hd. }
     rewrite a_find_und_frame.
-    destruct (find (fun v => vname (vget st v) =? x) (sundeclared (sc_of st c))) as [v|] eqn:Eu.
+    destruct (find (und_pred st home x) (sundeclared (sc_of st c))) as [v|] eqn:Eu.
     + (* already used in the current scope, or a declaration passed through it *)
-      apply find_some_name in Eu. destruct Eu as [Hin Hname].
+      apply find_some_und in Eu. destruct Eu as (Hin & Hname & Hnarg).
       destruct (I_und _ _ _ _ _ I c v Hcs Hin) as (Hroot & Hh & _).
       assert (Hv : (v < nvars st)%nat) by (apply (I_valid _ _ _ _ _ I c v Hc); right; exact Hin).
       set (st' := vset st v (set_uses (vget st v) (u16 (vuses (vget st v) + 1)))).
@@ -289,10 +310,12 @@ Proof.
       * apply InvS_log_cons; [apply (InvS_same_shape _ _ _ _ _ _ Hsh I)|]. unfold st'. rewrite nvars_vset. exact Hv.
       * split; [apply InvU_incr; assumption|].
         cbn [option_map].
-        assert (Elab : lab_of st home v = match uent_of st home v with UPend _ => LPend c x | UPass _ fs => LDecl fs x end).
+        assert (Elab : lab_of st home v = match uent_of st home v with UPend _ => LPend c x | UPass _ fs => LDecl fs x | UArg _ => LArg c x end).
         { rewrite lab_of_root by exact Hroot. unfold lab_root, uent_of. unfold vd in Hh.
-          destruct (Z.eqb_spec (vdecl (vget st v)) 0) as [E|E]; rewrite Hname; [rewrite (Hh E)|]; reflexivity. }
-        destruct (uent_of st home v) eqn:Eue; rewrite (abs_same_shape _ _ _ _ _ Hsh); unfold abs; cbn [map];
+          destruct (Z.eqb_spec (vdecl (vget st v)) 0) as [E|E]; rewrite Hname; [rewrite (Hh E); destruct (argp st home v)|]; reflexivity. }
+        assert (Enoarg : forall y, uent_of st home v <> UArg y).
+        { intros y. unfold uent_of. destruct (Z.eqb_spec (vdecl (vget st v)) 0) as [E|E]; [rewrite (Hnarg E)|]; discriminate. }
+        destruct (uent_of st home v) eqn:Eue; [| |exfalso; eapply Enoarg; reflexivity]; rewrite (abs_same_shape _ _ _ _ _ Hsh); unfold abs; cbn [map];
           rewrite Elab; reflexivity.
     + (* a new unresolved variable *)
       cbn [option_map].
